@@ -484,6 +484,8 @@ theorem keepsM_cycle {M : Tr → Prop} (env : Env) (pre mid post : Method) : Kee
 
 theorem keepsM_query {M : Tr → Prop} (env : Env) : KeepsM M (query env) := by
   unfold query
+  generalize headFirst Method.query = hfq
+  cases hfq <;> simp only [if_true, if_false, Bool.false_eq_true] <;>
   exact keepsM_dep fun s0 => KeepsM.seq (keepsM_deliver env _ _ _ _ (trOk_default M) (trOk_default M))
     (keepsM_deliver env _ _ _ _ (trOk_default M) (trOk_default M))
 
